@@ -135,9 +135,9 @@ func c16RunOp(op *c16Op, x *c16In) (res string, alloc uint64, dur time.Duration)
 		var out string
 		runtime.ReadMemStats(&ms)
 		a0 := ms.TotalAlloc
-		t0 := time.Now()
+		t0 := cpuNow()
 		p := c16Safe(func() { out = op.run(x) })
-		d := time.Since(t0)
+		d := cpuNow() - t0
 		runtime.ReadMemStats(&ms)
 		a := ms.TotalAlloc - a0
 		if p != "" {
